@@ -44,7 +44,7 @@ def validate_translator(seed=0, per_fn=170):
 
 
 def run_contract(check, tier, measures=kernel.MEASURES, kinds=None, sizes=None, name='E1-K',
-                 cross_every=None):
+                 cross_every=None, max_obligations=None, always=('pl',)):
     """Prove K of the real kernel functions.  Each `sat` becomes a violation detail that the replay
     turns into the canonical worst-case tables."""
     t0 = time.time()
@@ -63,6 +63,15 @@ def run_contract(check, tier, measures=kernel.MEASURES, kinds=None, sizes=None, 
                                                               'mono'))
         descs += d
         raw_total += raw
+    total_merged = len(descs)
+    if max_obligations and len(descs) > max_obligations:
+        # quick tier: every obligation of the kinds in `always`, a seed-chosen sample of the rest
+        rnd = random.Random(check.seed)
+        keep = [d for d in descs if d['kind'] in always]
+        rest = [d for d in descs if d['kind'] not in always]
+        rnd.shuffle(rest)
+        descs = keep + rest[:max(0, max_obligations - len(keep))]
+    result['obligations_available'] = total_merged
     twins = [dict(kind='twin', measure=m, n=3, c=1.0) for m in measures]
     cross_every = cross_every if cross_every is not None else (20 if tier == 'thorough' else 40)
     res, wall = kernel.run_all(descs + twins, cross_every=cross_every, seed=check.seed)
